@@ -91,4 +91,8 @@ theorem mnt_clean_path (raw : Bytes) : CleanPath (cleanAbs raw) := cleanAbs_clea
 /-- regenerated from the source on every run: MNT cleans the requested path before anything is derived from it (the model's cleanAbs) -/
 theorem gen_mnt_cleans_path : Gen.mntCleansPath = true := by decide
 
+/-- MNT's per-component validation does not depend on the MOUNT version or anything else: the refusal's condition is
+    exactly `status != NFS_OK` (the model's `procMnt` is the same for versions 1 and 3) -/
+theorem gen_mnt_component_check_unconditional : Gen.mntComponentCheckUnconditional = true := by decide
+
 end Props.C07
